@@ -20,7 +20,7 @@ RULE = ("Hypothesis draws a SchemaSpec (target namespace, element/attribute form
         "generated root class with all fail_on_* options on and warnings as errors; (3) the typed, default-augmented, unordered "
         "infoset of serialize(parse(doc)) equals that of doc; (4) where the schema is in the order-preserving fragment the "
         "ordered infosets agree and libxml2 validates the output; (5) a second configuration differing only in output-only "
-        "options (structure style, unnest, frozen, slots, kw_only, docstring style, relative imports, generic collections, line "
+        "options (structure style, unnest, frozen, slots, docstring style, relative imports, generic collections, line "
         "length) accepts the same documents and yields outputs with identical infosets. Non-trivial = the schema uses >= 3 "
         "feature families and the document has >= 5 element nodes; distinct by fingerprint of (spec, documents, config).")
 ASSUMPTIONS = [
@@ -46,7 +46,7 @@ DOCSTYLES = ["reStructuredText", "NumPy", "Google", "Accessible", "Blank"]
 @st.composite
 def output_only(draw):
     return {"structure_style": draw(st.sampled_from(STYLES)), "unnest_classes": draw(st.booleans()),
-            "format.frozen": draw(st.booleans()), "format.slots": draw(st.booleans()), "format.kw_only": draw(st.booleans()),
+            "format.frozen": draw(st.booleans()), "format.slots": draw(st.booleans()),
             "docstring_style": draw(st.sampled_from(DOCSTYLES)), "relative_imports": draw(st.booleans()),
             "generic_collections": draw(st.booleans()), "max_line_length": draw(st.sampled_from([60, 79, 120, 200]))}
 
